@@ -49,6 +49,7 @@ pub fn all() -> Vec<(&'static str, Replay)> {
             plan,
             sodg_rev: "before the fix: commits".to_string(),
             note: note.to_string(),
+            prelude: None,
         }
     };
     vec![
